@@ -376,6 +376,13 @@ func c09Exec(raw json.RawMessage, res *RunResult) {
 				res.Probe("opcount_differs_after_restore")
 			}
 			if f := DiffOutcome(ref[i], &oc); f != "" {
+				if j := abandonedTailDefinition(sc.Stmts, ref, i); j >= 0 {
+					// a definition whose statement the parser left early, inside '||' / '&&' / '?': the code of the
+					// abandoned alternative stays in the body compiled at definition time (C08's open finding), the
+					// stored text ends where the parser stopped. Its own signature.
+					res.Violate("restore-mismatch:definition-with-abandoned-tail", "statement %d differs in %s: statement %d defined a function / computed value and the parser stopped inside it (rest %q): the body compiled at definition time contains code of the abandoned alternative, the VM restored from JSON after statement %d recompiled the stored text\n  defining stmt=%q\n  stmt=%q\n  uncrashed: %s\n  restored:  %s", i+1, f, j+1, trunc(ref[j].Rest, 40), from, sc.Stmts[j], sc.Stmts[i], ref[i].Short(), o.Short())
+					break
+				}
 				if op := snaps[i].unpatched + snaps[i+1].unpatched; op != "" {
 					// the uncrashed VM holds a body compiled with a jump that never got its offset (C08's open
 					// finding: code left behind by an abandoned '||' / '&&' / '?' alternative); the restored VM
@@ -405,6 +412,21 @@ func c09Exec(raw json.RawMessage, res *RunResult) {
 	res.Nontrivial = compared >= 3
 	res.CaseKey = HashStr(strings.Join(sc.Stmts, "\x00"))
 	_ = hex.EncodeToString
+}
+
+// abandonedTailDefinition returns the index of a statement up to i that defines a function or computed
+// value, uses '||' / '&&' / '?', and was not consumed to its end by the parser (-1 if none).
+func abandonedTailDefinition(stmts []string, ref []*Outcome, i int) int {
+	for j := 0; j <= i && j < len(stmts); j++ {
+		if ref[j] == nil || ref[j].Err != "" || strings.TrimSpace(ref[j].Rest) == "" {
+			continue
+		}
+		st := stmts[j]
+		if (strings.Contains(st, "&") || strings.Contains(st, "func ")) && (strings.Contains(st, "||") || strings.Contains(st, "&&") || strings.Contains(st, "?")) {
+			return j
+		}
+	}
+	return -1
 }
 
 // macroAroundDefinition: some statement carries a flag macro AND defines a function or computed
